@@ -2,3 +2,4 @@ pub mod trace;
 pub mod cli;
 pub mod mock;
 pub mod modrec;
+pub mod codecrec;
